@@ -1586,6 +1586,8 @@ func (*log).delete
     flags locks only_locks only_sync only_struct only_version noframe
     // C17: the version handed to the rewrite: NewSegmentsVersion, or with KeepRewriteVersion the version
     // detected in the segment being rewritten (message and index version always change together)
+    // C12: when the head changed under the rewrite (a Publish landed in between) nothing is removed and nothing is reported
+    assert[struct_changed_noop] len(ret0) == 0 && ret1 == 0 && ret2 == nil at return 7
     assert[version_new]   !l.opts.Version.KeepRewriteVersion ==> mversion == l.opts.Version.NewSegmentsVersion.messages && iversion == l.opts.Version.NewSegmentsVersion.index at call (Segment).Rewrite 1
     assert[version_keep1] l.opts.Version.KeepRewriteVersion && wasWriter && writerVersion == message.V1 ==> mversion == message.V1 && iversion == index.V1 at call (Segment).Rewrite 1
     assert[version_keep2] l.opts.Version.KeepRewriteVersion && wasWriter && writerVersion == message.V2 ==> mversion == message.V2 && iversion == index.V2 at call (Segment).Rewrite 1
@@ -1787,6 +1789,8 @@ func Open
     assert[order_recover_first]  (opts.Recover || opts.Check) ==> gDone["headcheck"] == old(gDone)["headcheck"] + 1 at call (Segment).Migrate 1
     assert[order_recover_open]   (opts.Recover || opts.Check) ==> gDone["headcheck"] == old(gDone)["headcheck"] + 1 at call openWriter 2
     assert[order_recover_head]   arg0 == segments[len(segments)-1] && arg1 == params at call (Segment).Recover 1
+    // Recover wins over Check when both are requested: a writable open with Recover set has RECOVERED the head
+    assert[order_recover_wins]   opts.Recover ==> gDone["recover"] == old(gDone)["recover"] + 1 at call openWriter 2
     assert[version_eager_args]   arg0 == segments[rangeindex+1] && arg1 == opts.Version.NewSegmentsVersion.messages
                                      && arg2 == opts.Version.NewSegmentsVersion.index && arg3 == params at call (Segment).Migrate 1
     assert[version_eager_all]    opts.Version.EagerVersionMigrate ==> gDone["migrate"] == old(gDone)["migrate"] + len(segments) at call openWriter 2
@@ -1800,6 +1804,7 @@ func Open
       invariant[struct_idx]  len(l.readers) == 0 && l.opts == opts && l.lock == lock && l != nil && l.writer == nil
       invariant[version_count]  -1 <= rangeindex && rangeindex < len(segments) && gDone["migrate"] == old(gDone)["migrate"] + rangeindex + 1
                                     && gDone["headcheck"] == old(gDone)["headcheck"] + ite(opts.Recover || opts.Check, 1, 0)
+                                    && gDone["recover"] == old(gDone)["recover"] + ite(opts.Recover, 1, 0)
       invariant[version_before_open] l.writer == nil && len(l.readers) == 0
       invariant[flock]       lkMode[lock] == 2 && lkPath[lock] == lockFile(dir) && lkExcl[lockFile(dir)] && !old(lkExcl)[lockFile(dir)]
                                  && (forall p string :: p != lockFile(dir) ==> lkExcl[p] == old(lkExcl)[p]) && (forall p string :: lkShared[p] == old(lkShared)[p])
@@ -1808,6 +1813,7 @@ func Open
       invariant[struct_rdrs] forall k :: 0 <= k && k <= rangeindex ==> l.readers[k] != nil && allocated(l.readers[k]) && l.readers[k].segment.Offset == segments[k].Offset && !l.readers[k].head
       invariant[version_count]  gDone["migrate"] == old(gDone)["migrate"] + ite(opts.Version.EagerVersionMigrate, len(segments), 0)
                                     && gDone["headcheck"] == old(gDone)["headcheck"] + ite(opts.Recover || opts.Check, 1, 0)
+                                    && gDone["recover"] == old(gDone)["recover"] + ite(opts.Recover, 1, 0)
       invariant[flock]       lkMode[lock] == 2 && lkPath[lock] == lockFile(dir) && lkExcl[lockFile(dir)] && !old(lkExcl)[lockFile(dir)]
                                  && (forall p string :: p != lockFile(dir) ==> lkExcl[p] == old(lkExcl)[p]) && (forall p string :: lkShared[p] == old(lkShared)[p])
 
